@@ -520,6 +520,9 @@ namespace {
     }
 }
 
+// a sanitizer report must not look like an oracle failure (exit code 1) to the driver
+extern "C" const char* __asan_default_options() { return "exitcode=86"; }
+
 int main( int argc, char** argv )
 {
     verif::Harness< Case > h;
